@@ -6,7 +6,12 @@ weight), while a plain dict/set content model is kept next to it.  Each clause
 then performs one kind of extraction (or copy()) and compares the complete
 public observation of the returned object with the observation computed from
 the abstract content restricted by the selection; the source must answer every
-query exactly as before.
+query exactly as before.  In part of the cases the same extraction was already
+called once (result discarded) before the last mutations of the source, and the
+extracted object is finally mutated itself and must behave as a hypergraph of
+the restricted content.  copy(): both sides are mutated in turn (public
+mutators and in-place edits of nested metadata values); the other side must not
+move.
 """
 
 from collections import Counter
@@ -32,8 +37,22 @@ ASSUMPTIONS = [
     "filter the hyperedge set may be either all hyperedges inside the component or only those of the "
     "filtered size (the docstring says 'induced by the nodes' and 'hyperedges to consider')",
     "subhypergraph(nodes) is called with a list of distinct nodes of the source (node subset)",
-    "copy(): mutation means calls of the public mutators; editing objects returned by getters is not "
-    "generated",
+    "copy(): mutation means calls of the public mutators and in-place edits of list-/dict-valued "
+    "metadata values reached through the getters (get_node_metadata, get_edge_metadata, "
+    "get_hypergraph_metadata, get_all_incidences_metadata) of one side; whether a getter hands out "
+    "the stored object or a copy is not claimed: the edited item is read back into the model and only "
+    "the other side is required not to move",
+    "the extracted object is afterwards mutated with add_edge/remove_edge/set_weight/add_node/"
+    "set_edge_metadata/set_node_metadata (wholesale replacements only, no set_attr_*) and must answer "
+    "as the restricted content with these changes; nothing is claimed about the source once its "
+    "extract has been mutated (metadata dicts may be shared)",
+    "get_all_nodes_metadata() (undocumented) is the dict node -> metadata of exactly the nodes "
+    "(Hypergraph) or the list of its values (DirectedHypergraph); get_all_edges_metadata() is keyed by "
+    "internal ids, only the multiset of its values is compared: one entry per hyperedge",
+    "weights 0, 0.0 and -1.5 are weights like any other; a weight keeps its Python type (int/float) "
+    "through an extraction and copy() (separate key 'weight-type')",
+    "an early, discarded call of the same extraction (or copy()) in the middle of the build is "
+    "content-neutral for the source",
     "directed hyperedges have disjoint non-empty source and target; labels of one universe are "
     "mutually comparable",
 ]
@@ -97,6 +116,59 @@ def canon_lib(e, directed):
     return cdedge(e) if directed else cedge(e)
 
 
+class Bag:
+    """Multiset of (unhashable) values compared by ==."""
+
+    def __init__(self, items):
+        self.items = list(items)
+
+    def __eq__(self, other):
+        if not isinstance(other, Bag) or len(self.items) != len(other.items):
+            return False
+        rest = list(other.items)
+        for x in self.items:
+            for i, y in enumerate(rest):
+                if x == y:
+                    del rest[i]
+                    break
+            else:
+                return False
+        return True
+
+    def __ne__(self, other):
+        return not self.__eq__(other)
+
+    __hash__ = None
+
+    def __repr__(self):
+        return "Bag(%s)" % sorted(repr(x) for x in self.items)
+
+
+class Table:
+    """What get_all_nodes_metadata() returned: Hypergraph returns the dict node -> metadata,
+    DirectedHypergraph the list of its values (neither is documented): a dict is compared as a
+    dict, a list as a multiset of values."""
+
+    def __init__(self, got):
+        self.mapping = dict(got) if isinstance(got, dict) else None
+        self.values = Bag(got.values() if isinstance(got, dict) else got)
+
+    def __eq__(self, other):
+        if not isinstance(other, Table):
+            return False
+        if self.mapping is not None and other.mapping is not None:
+            return self.mapping == other.mapping
+        return self.values == other.values
+
+    def __ne__(self, other):
+        return not self.__eq__(other)
+
+    __hash__ = None
+
+    def __repr__(self):
+        return repr(self.mapping) if self.mapping is not None else repr(self.values)
+
+
 class Content:
     """Abstract content of a hypergraph: what every query is a function of."""
 
@@ -118,6 +190,10 @@ class Content:
         c = Content(self.weighted, self.directed)
         c.nodes = {n: dc(self.nodes[n]) for n in node_set}
         c.edges = {k: dc(self.edges[k]) for k in keys}
+        # (classification only, but apply_op maintains it when the restricted content becomes the
+        # model of an extracted object that is mutated afterwards)
+        c.ids = {k: self.ids.get(k, i) for i, k in enumerate(keys)}
+        c.ctr = max(list(c.ids.values()) + [-1]) + 1
         return c
 
 
@@ -257,11 +333,71 @@ def apply_op(h, m, op, U, ctx=None):
         n = sorted(nodes_of(key, d))[op["pick"] % len(nodes_of(key, d))]
         h.set_incidence_metadata(e, n, dc(op["value"]))
         return "set_incidence_metadata(%r, %r, %r)" % (e, n, op["value"])
+    if k == "nested":
+        return nested_edit(h, m, op)
     raise ValueError(k)
 
 
-def build(src, ctx):
-    """(real object, content model, trace) for a source case."""
+def _container(v):
+    return isinstance(v, (list, dict))
+
+
+def nested_edit(h, m, op):
+    """In-place edit of a list-/dict-valued metadata VALUE that a public getter of `h` hands out.
+
+    Whether the getter hands out the stored object or a copy is not promised, so nothing is
+    claimed about the edited side: the item is read back into the model.  The caller compares
+    the OTHER side (copy vs original), which must not move in either case."""
+    d = m.directed
+    cands = []
+    for n in sorted(m.nodes):
+        cands += [("node", n, f) for f in sorted(m.nodes[n]) if _container(m.nodes[n][f])]
+    for key in m.sorted_keys():
+        cands += [("edge", key, f) for f in sorted(m.edges[key][1])
+                  if _container(m.edges[key][1][f])]
+    # hypergraph-level and incidence metadata are not part of the content model: read them
+    hg = h.get_hypergraph_metadata()
+    cands += [("hg", None, f) for f in sorted(hg, key=repr) if _container(hg[f])]
+    inc = h.get_all_incidences_metadata()
+    cands += [("inc", ik, None) for ik in sorted(inc, key=repr) if _container(inc[ik])]
+    if not cands:
+        return None
+    what, item, f = cands[op["pick"] % len(cands)]
+    if what == "node":
+        v = h.get_node_metadata(item)[f]
+        where = "get_node_metadata(%r)[%r]" % (item, f)
+    elif what == "edge":
+        e = api_edge(rec_of_key(item, op["pick"], d), d)
+        v = h.get_edge_metadata(e)[f]
+        where = "get_edge_metadata(%r)[%r]" % (e, f)
+    elif what == "hg":
+        v = hg[f]
+        where = "get_hypergraph_metadata()[%r]" % (f,)
+    else:
+        v = inc[item]
+        where = "get_all_incidences_metadata()[%r]" % (item,)
+    if not _container(v):
+        raise Violation("%s is %r, the value that was stored is a list or dict" % (where, v),
+                        key="mutated-side")
+    if isinstance(v, list):
+        v.append(dc(op["value"]))
+        did = "%s.append(%r)" % (where, op["value"])
+    else:
+        v["z"] = dc(op["value"])
+        did = "%s['z'] = %r" % (where, op["value"])
+    if what == "node":
+        m.nodes[item] = dc(h.get_node_metadata(item))
+    elif what == "edge":
+        m.edges[item][1] = dc(h.get_edge_metadata(e))
+    return "nested-edit:%s %s" % (what, did)
+
+
+def build(src, ctx, warm=None, warm_at=None):
+    """(real object, content model, trace) for a source case.
+
+    warm(h, m) -> description | None, called once before op number warm_at % len(ops): the clause's
+    own extraction, result discarded, so that the real call is not the first one the object sees
+    and something remembered by the early call is out of date by then."""
     U = src["universe"]["labels"]
     d = src["directed"]
     m = Content(src["weighted"], d)
@@ -277,10 +413,22 @@ def build(src, ctx):
             m.nodes[n] = dc(meta)
     h = _new(d, **kw)
     trace = ["%s(%r)" % ("DirectedHypergraph" if d else "Hypergraph", kw)]
-    for op in src["ops"]:
+    ops = src["ops"]
+    pos = warm_at % len(ops) if (warm is not None and warm_at is not None and ops) else None
+    snap = None
+    for i, op in enumerate(ops):
+        if i == pos:
+            t = warm(h, m)
+            if t is not None:
+                trace.append("(early call, result discarded) " + t)
+                snap = (dc(m.nodes), dc(m.edges))
         t = apply_op(h, m, op, U)
         if t is not None:
             trace.append(t)
+    if snap is not None:
+        ctx.label("early-call")
+        if snap != (m.nodes, m.edges):
+            ctx.label("early-call:content-changed-afterwards")
     if src.get("wholesale_hg") is not None:
         # the hypergraph metadata replaced wholesale: the implementation-set fields
         # ('weighted', 'type') are gone, so an extraction that writes them back into the
@@ -313,6 +461,11 @@ def observe(h, directed):
     o["get_edge_metadata"] = {e: dc(h.get_edge_metadata(e)) for e in set(edges)}
     o["get_edges(metadata=True)"] = {
         canon_lib(k, directed): dc(v) for k, v in h.get_edges(metadata=True).items()}
+    # the whole tables: an entry for something that is not a member (left behind, or carried over
+    # from the source of an extraction) shows here.  The hyperedge table is keyed by internal
+    # ids: only its values are compared, as a multiset
+    o["get_all_nodes_metadata"] = Table(dc(h.get_all_nodes_metadata()))
+    o["get_all_edges_metadata:values"] = Bag(dc(list(h.get_all_edges_metadata().values())))
     if directed:
         o["get_source_edges"] = {
             n: Counter(cdedge(e) for e in h.get_source_edges(n)) for n in set(nodes)}
@@ -340,6 +493,8 @@ def expected(c):
     o["get_weights"] = Counter(v[0] for v in es.values())
     o["get_edge_metadata"] = {e: dc(v[1]) for e, v in es.items()}
     o["get_edges(metadata=True)"] = {e: dc(v[1]) for e, v in es.items()}
+    o["get_all_nodes_metadata"] = Table(dc(c.nodes))
+    o["get_all_edges_metadata:values"] = Bag(dc(v[1]) for v in es.values())
     if d:
         o["get_source_edges"] = {
             n: Counter(canon_key(k, d) for k in c.edges if n in k[0]) for n in c.nodes}
@@ -386,11 +541,44 @@ def classify_source(m, ctx):
         ctx.label("src:singleton-edge")
     if not keys:
         ctx.label("src:no-edges")
+    if m.weighted and any(not m.edges[k][0] for k in keys):
+        ctx.label("src:zero-weight")
+    if m.weighted and any(m.edges[k][0] < 0 for k in keys):
+        ctx.label("src:negative-weight")
     return bool(keys) and ids_shifted and has_meta and (w_ne_id or not m.weighted)
 
 
-def check_extraction(h, m, call, desc, alternatives, ctx, trace):
-    """alternatives: list of (node_set, key_set) the documentation allows for this call."""
+def weight_types(h, directed):
+    return {canon_lib(e, directed): type(h.get_weight(e)).__name__ for e in h.get_edges()}
+
+
+def check_weight_types(src_types, obj, directed, what):
+    """(separate key) a weight arrives as the number it was: 2 stays an int, 0.0 stays a float."""
+    got = weight_types(obj, directed)
+    bad = {e: (src_types.get(e), t) for e, t in got.items() if src_types.get(e) != t}
+    require(not bad, lambda: "%s: weights changed their type {hyperedge: (source, result)}: %r"
+            % (what, bad), key="weight-type")
+
+
+def check_extraction(case, ctx, make):
+    """make(h, m) -> (call, description, alternatives) | None for the content m of h;
+    alternatives: list of (node_set, key_set) the documentation allows for this call.
+
+    Returns (source, its content model, source is 'good' by classify_source, the matching
+    alternative or None when make declined)."""
+    def warm(h0, m0):
+        made = make(h0, m0)
+        if made is None:
+            return None
+        made[0]()
+        return made[1]
+
+    h, m, trace = build(case["src"], ctx, warm, case.get("warm_at"))
+    good = classify_source(m, ctx)
+    made = make(h, m)
+    if made is None:
+        return h, m, good, None
+    call, desc, alternatives = made
     d = m.directed
     ctx.trace = trace + [desc]
     dsrc = diff_obs(expected(m), observe(h, d))
@@ -409,7 +597,8 @@ def check_extraction(h, m, call, desc, alternatives, ctx, trace):
     obs = observe(sub, d)
     first = None
     for node_set, key_set in alternatives:
-        df = diff_obs(expected(m.restrict(node_set, key_set)), obs)
+        model = m.restrict(node_set, key_set)
+        df = diff_obs(expected(model), obs)
         if df is None:
             break
         if first is None:
@@ -419,10 +608,27 @@ def check_extraction(h, m, call, desc, alternatives, ctx, trace):
             desc, trace, first,
             "" if len(alternatives) == 1 else " (nor any of the other %d admissible results)"
             % (len(alternatives) - 1)), key="extraction")
+    check_weight_types(weight_types(h, d), sub, d, desc)
     # reading the result must not have changed the source either
     dd = diff_obs(before, full_obs(h, d))
     require(dd is None, lambda: "querying the result of %s changed the source: %s" % (desc, dd),
             key="source-changed")
+    # the result is a hypergraph in its own right: it takes structural mutations like one that was
+    # built with the same content.  (Nothing is said about the source from here on: metadata
+    # dicts may be shared between the two, which the property does not exclude.)
+    U = case["src"]["universe"]["labels"]
+    done = []
+    for op in case.get("sub_ops", []):
+        t = apply_op(sub, model, op, U)
+        if t is not None:
+            done.append(t)
+    if done:
+        ctx.label("result-mutated")
+        ctx.trace = trace + [desc] + ["result." + t for t in done]
+        dm = diff_obs(expected(model), observe(sub, d))
+        require(dm is None, lambda: "the result of %s (source built by %r) after %r does not "
+                "answer as its content: %s" % (desc, trace, done, dm), key="result-mutated")
+    return h, m, good, (node_set, key_set)
 
 
 def _sel_labels(ctx, m, key_set):
@@ -448,9 +654,7 @@ def _must_raise(fn, exc, desc):
 
 # ---- subhypergraph(nodes)
 
-def check_induced(case, ctx):
-    h, m, trace = build(case["src"], ctx)
-    good = classify_source(m, ctx)
+def _induced_selection(case, m):
     ns = sorted(m.nodes)
     chosen = permuted([n for i, n in enumerate(ns) if case["mask"][i % len(case["mask"])]],
                       case["perm"])
@@ -458,21 +662,28 @@ def check_induced(case, ctx):
     for r in case.get("repeat", []):
         if chosen:
             chosen.insert(r % (len(chosen) + 1), chosen[r % len(chosen)])
-            ctx.label("nodes:listed-twice")
-    cs = set(chosen)
-    keys = {k for k in m.edges if nodes_of(k, False) <= cs}
+    return chosen
+
+
+def check_induced(case, ctx):
+    def make(h, m):
+        chosen = _induced_selection(case, m)
+        cs = set(chosen)
+        keys = {k for k in m.edges if nodes_of(k, False) <= cs}
+        return (lambda: h.subhypergraph(list(chosen)), "subhypergraph(%r)" % (chosen,),
+                [(cs, keys)])
+
+    h, m, good, (cs, keys) = check_extraction(case, ctx, make)
+    if len(_induced_selection(case, m)) > len(cs):
+        ctx.label("nodes:listed-twice")
     proper = _sel_labels(ctx, m, keys)
-    ctx.label("nodes:%s" % ("none" if not cs else "all" if len(cs) == len(ns) else "proper"))
-    check_extraction(h, m, lambda: h.subhypergraph(list(chosen)),
-                     "subhypergraph(%r)" % (chosen,), [(cs, keys)], ctx, trace)
+    ctx.label("nodes:%s" % ("none" if not cs else "all" if len(cs) == len(m.nodes) else "proper"))
     ctx.nontrivial(good and proper)
 
 
 # ---- subhypergraph_by_orders
 
 def check_by_orders(case, ctx):
-    h, m, trace = build(case["src"], ctx)
-    good = classify_source(m, ctx)
     sel = case["sel"]
     sizes = list(sel["sizes"])
     kw = {}
@@ -483,13 +694,20 @@ def check_by_orders(case, ctx):
     if sel["keep_nodes"] is not None:
         kw["keep_nodes"] = sel["keep_nodes"]
     keep = sel["keep_nodes"] is not False
-    keys = {k for k in m.edges if m.size(k) in set(sizes)}
-    if keep:
-        node_set = set(m.nodes)
-    else:
-        node_set = set()
-        for x in keys:
-            node_set |= nodes_of(x, False)
+
+    def make(h, m):
+        keys = {k for k in m.edges if m.size(k) in set(sizes)}
+        if keep:
+            node_set = set(m.nodes)
+        else:
+            node_set = set()
+            for x in keys:
+                node_set |= nodes_of(x, False)
+        return (lambda: h.subhypergraph_by_orders(**dc(kw)),
+                "subhypergraph_by_orders(%s)" % ", ".join("%s=%r" % kv for kv in kw.items()),
+                [(node_set, keys)])
+
+    h, m, good, (node_set, keys) = check_extraction(case, ctx, make)
     proper = _sel_labels(ctx, m, keys)
     present = {m.size(k) for k in m.edges}
     if len(set(sizes)) != len(sizes):
@@ -501,10 +719,6 @@ def check_by_orders(case, ctx):
         ctx.label("list:empty")
     ctx.label("keep_nodes=%r" % (sel["keep_nodes"],))
     ctx.label("by:" + sel["by"])
-    check_extraction(h, m, lambda: h.subhypergraph_by_orders(**dc(kw)),
-                     "subhypergraph_by_orders(%s)" % ", ".join(
-                         "%s=%r" % kv for kv in kw.items()),
-                     [(node_set, keys)], ctx, trace)
     _must_raise(lambda: h.subhypergraph_by_orders(), ValueError,
                 "subhypergraph_by_orders() without orders and sizes")
     _must_raise(lambda: h.subhypergraph_by_orders(orders=[1], sizes=[2]), ValueError,
@@ -515,9 +729,7 @@ def check_by_orders(case, ctx):
 # ---- get_edges(subhypergraph=True)  (both classes)
 
 def check_filter(case, ctx):
-    h, m, trace = build(case["src"], ctx)
-    d = m.directed
-    good = classify_source(m, ctx)
+    d = case["src"]["directed"]
     sel = case["sel"]
     kw = {"subhypergraph": True}
     k = sel["k"]
@@ -529,25 +741,29 @@ def check_filter(case, ctx):
         kw["up_to"] = sel["up_to"]
     if sel["keep_iso"] is not None:
         kw["keep_isolated_nodes"] = sel["keep_iso"]
-    if sel["by"] is None:
-        keys = set(m.edges)
-    elif sel["up_to"]:
-        keys = {x for x in m.edges if m.size(x) <= k}
-    else:
-        keys = {x for x in m.edges if m.size(x) == k}
-    if sel["keep_iso"]:
-        node_set = set(m.nodes)
-    else:
-        node_set = set()
-        for x in keys:
-            node_set |= nodes_of(x, d)
+
+    def make(h, m):
+        if sel["by"] is None:
+            keys = set(m.edges)
+        elif sel["up_to"]:
+            keys = {x for x in m.edges if m.size(x) <= k}
+        else:
+            keys = {x for x in m.edges if m.size(x) == k}
+        if sel["keep_iso"]:
+            node_set = set(m.nodes)
+        else:
+            node_set = set()
+            for x in keys:
+                node_set |= nodes_of(x, d)
+        return (lambda: h.get_edges(**kw),
+                "get_edges(%s)" % ", ".join("%s=%r" % kv for kv in kw.items()),
+                [(node_set, keys)])
+
+    h, m, good, (node_set, keys) = check_extraction(case, ctx, make)
     proper = _sel_labels(ctx, m, keys)
     ctx.label("by:%s" % sel["by"], "up_to=%r" % (sel["up_to"],), "keep_iso=%r" % (sel["keep_iso"],))
     if not sel["keep_iso"] and any(m.nodes[n] for n in node_set):
         ctx.label("kept-node-has-metadata")
-    check_extraction(h, m, lambda: h.get_edges(**kw),
-                     "get_edges(%s)" % ", ".join("%s=%r" % kv for kv in kw.items()),
-                     [(node_set, keys)], ctx, trace)
     _must_raise(lambda: h.get_edges(order=1, size=2, subhypergraph=True), ValueError,
                 "get_edges(order=1, size=2, subhypergraph=True)")
     ctx.nontrivial(good and proper)
@@ -555,18 +771,7 @@ def check_filter(case, ctx):
 
 # ---- subhypergraph_largest_component
 
-def check_largest(case, ctx):
-    h, m, trace = build(case["src"], ctx)
-    good = classify_source(m, ctx)
-    if not m.nodes:
-        ctx.exclude("source without nodes: the largest component of nothing is undefined")
-        return
-    sel = case["sel"]
-    kw = {}
-    if sel["by"] == "size":
-        kw["size"] = sel["k"]
-    elif sel["by"] == "order":
-        kw["order"] = sel["k"] - 1
+def _largest_alts(m, sel):
     considered = [x for x in m.edges if sel["by"] is None or m.size(x) == sel["k"]]
     comps = components(m.nodes, considered)
     top = max(len(c) for c in comps)
@@ -580,15 +785,35 @@ def check_largest(case, ctx):
             narrow = {x for x in considered if x <= c}
             if narrow != induced:
                 alts.append((set(c), narrow))
+    return alts, comps, top
+
+
+def check_largest(case, ctx):
+    sel = case["sel"]
+    kw = {}
+    if sel["by"] == "size":
+        kw["size"] = sel["k"]
+    elif sel["by"] == "order":
+        kw["order"] = sel["k"] - 1
+
+    def make(h, m):
+        if not m.nodes:
+            return None
+        return (lambda: h.subhypergraph_largest_component(**kw),
+                "subhypergraph_largest_component(%s)" % ", ".join(
+                    "%s=%r" % kv for kv in kw.items()), _largest_alts(m, sel)[0])
+
+    h, m, good, matched = check_extraction(case, ctx, make)
+    if matched is None:
+        ctx.exclude("source without nodes: the largest component of nothing is undefined")
+        return
+    alts, comps, top = _largest_alts(m, sel)
     ctx.label("by:%s" % sel["by"])
     ctx.label("components:%s" % ("1" if len(comps) == 1 else "tie" if
                                  sum(1 for c in comps if len(c) == top) > 1 else "many"))
     proper = top < len(m.nodes)
     if proper:
         ctx.label("sel:proper")
-    check_extraction(h, m, lambda: h.subhypergraph_largest_component(**kw),
-                     "subhypergraph_largest_component(%s)" % ", ".join(
-                         "%s=%r" % kv for kv in kw.items()), alts, ctx, trace)
     ctx.nontrivial(good and proper and top > 1)
 
 
@@ -597,7 +822,11 @@ def check_largest(case, ctx):
 def check_copy(case, ctx):
     src = case["src"]
     U = src["universe"]["labels"]
-    h, m, trace = build(src, ctx)
+    def warm(h0, m0):
+        h0.copy()
+        return "copy()"
+
+    h, m, trace = build(src, ctx, warm, case.get("warm_at"))
     d = m.directed
     good = classify_source(m, ctx)
     ctx.trace = trace
@@ -615,6 +844,7 @@ def check_copy(case, ctx):
             % (trace, dd), key="copy-not-equal")
     dd = diff_obs(o0, full_obs(h, d))
     require(dd is None, lambda: "copy() changed the source: %s" % dd, key="source-changed")
+    check_weight_types(weight_types(h, d), c, d, "copy()")
 
     sides = {"copy": (c, dc(m)), "original": (h, m)}
     order = ["copy", "original"] if case["copy_first"] else ["original", "copy"]
@@ -630,7 +860,10 @@ def check_copy(case, ctx):
             if t is None:
                 continue
             n_applied += 1
-            inplace = inplace or op["op"] in ("eattr", "nattr", "edelattr", "ndelattr", "hgattr")
+            inplace = inplace or op["op"] in ("eattr", "nattr", "edelattr", "ndelattr", "hgattr",
+                                              "nested")
+            if op["op"] == "nested":
+                ctx.label(t.split(" ")[0])
             trace.append("%s.%s" % (who, t))
             dd = diff_obs(frozen, full_obs(other, d))
             require(dd is None, lambda: "%s on the %s changed the %s (history %r): %s"
@@ -650,7 +883,10 @@ def check_copy(case, ctx):
 
 idx = st.integers(0, 7)
 sel_int = st.integers(0, 30)
-WEIGHTS = st.one_of(st.integers(1, 9), st.integers(1, 9), st.sampled_from([0.5, 2.5, 12]))
+# 0, 0.0 and a negative weight are weights like any other ("their original weights"): a falsy
+# weight must not be replaced by a default on the way into the extracted object
+WEIGHTS = st.one_of(st.integers(1, 9), st.integers(1, 9), st.sampled_from([0.5, 2.5, 12]),
+                    st.sampled_from([0, 0.0, -1.5]))
 FIELD = st.sampled_from(S.ATTRS)
 
 
@@ -684,6 +920,8 @@ def _op_table(directed):
         "hgattr": st.fixed_dictionaries({"op": st.just("hgattr"), "field": FIELD,
                                          "value": S.json_values}),
         "setw": st.fixed_dictionaries({"op": st.just("setw"), **pick, "w": WEIGHTS}),
+        "nested": st.fixed_dictionaries({"op": st.just("nested"), **pick,
+                                         "value": S.json_scalars}),
     }
 
 
@@ -692,7 +930,12 @@ BUILD_KINDS = (["add"] * 8 + ["del"] * 2 + ["node"] * 3 + ["delnode", "eattr", "
                + ["incmeta", "incmeta", "hgattr", "setw"])
 MUT_KINDS = (["add"] * 3 + ["del"] * 2 + ["node"] * 2 + ["delnode"] + ["eattr"] * 3
              + ["nattr"] * 3 + ["edelattr", "ndelattr", "hgattr", "hgattr", "setw", "setw",
-                                "incmeta"])
+                                "incmeta"]
+             # in-place edit of a list-/dict-valued metadata value handed out by a getter
+             + ["nested"] * 5)
+# what is done to an extracted object after it was compared (structural only: the metadata dicts
+# of the result may be the source's own, so no set_attr_*)
+SUB_KINDS = ["add"] * 5 + ["del"] * 2 + ["setw"] * 2 + ["node"] * 2
 UNIVERSES = S.universes(min_size=3, max_size=8, kinds=("ints", "strs", "range", "ints"))
 NODE_META = st.lists(st.tuples(idx, S.metadata()), max_size=3)
 OPT_HG_META = st.one_of(st.none(), S.metadata())
@@ -704,7 +947,7 @@ def _ops(directed, kinds_name):
     key = (directed, kinds_name)
     if key not in _CACHE:
         table = _op_table(directed)
-        kinds = BUILD_KINDS if kinds_name == "build" else MUT_KINDS
+        kinds = {"build": BUILD_KINDS, "mut": MUT_KINDS, "sub": SUB_KINDS}[kinds_name]
         # weighted choice of the kind (one_of would drop the repetitions), then the prebuilt strategy
         _CACHE[key] = st.sampled_from(kinds).flatmap(table.__getitem__)
     return _CACHE[key]
@@ -749,9 +992,20 @@ def _big(tier):
     return tier != "quick"
 
 
+# position (mod the number of ops) of the early, discarded call of the clause's own extraction;
+# None = no early call
+WARM_AT = st.one_of(st.none(), st.integers(0, 40), st.integers(0, 40))
+
+
+def _sub_ops(directed):
+    return st.lists(_ops(directed, "sub"), min_size=1, max_size=3)
+
+
 def induced_cases(tier):
     return st.fixed_dictionaries({
         "src": sources(False, _big(tier)),
+        "warm_at": WARM_AT,
+        "sub_ops": _sub_ops(False),
         "mask": st.lists(st.sampled_from([True, True, True, False]), min_size=8, max_size=8),
         "perm": sel_int,
         # in one case out of three the selection list repeats one or two of its nodes
@@ -767,6 +1021,8 @@ SIZE_VALUES = st.sampled_from([2, 1, 3, 2, 4, 3, 5, 6, 1])
 def by_orders_cases(tier):
     return st.fixed_dictionaries({
         "src": sources(False, _big(tier)),
+        "warm_at": WARM_AT,
+        "sub_ops": _sub_ops(False),
         "sel": st.fixed_dictionaries({
             "by": st.sampled_from(["orders", "sizes"]),
             "sizes": st.one_of(st.lists(SIZE_VALUES, min_size=1, max_size=4),
@@ -781,6 +1037,8 @@ def filter_cases(directed):
     def strat(tier):
         return st.fixed_dictionaries({
             "src": sources(directed, _big(tier)),
+            "warm_at": WARM_AT,
+            "sub_ops": _sub_ops(directed),
             "sel": st.fixed_dictionaries({
                 "by": st.sampled_from(["size", "order", "size", "order", None]),
                 "k": SIZE_VALUES,
@@ -794,6 +1052,8 @@ def filter_cases(directed):
 def largest_cases(tier):
     return st.fixed_dictionaries({
         "src": sources(False, _big(tier)),
+        "warm_at": WARM_AT,
+        "sub_ops": _sub_ops(False),
         "sel": st.fixed_dictionaries({
             "by": st.sampled_from([None, None, None, "size", "order"]),
             "k": st.integers(1, 5),
@@ -808,6 +1068,7 @@ def copy_cases(directed):
                          st.lists(op, min_size=0, max_size=6))
         return st.fixed_dictionaries({
             "src": sources(directed, _big(tier)),
+            "warm_at": WARM_AT,
             "copy_first": st.booleans(),
             "mut_copy": muts,
             "mut_original": muts,
@@ -834,7 +1095,8 @@ CLAUSES = [
            shards_quick=2, rule=_RULE + " (DirectedHypergraph.get_edges(subhypergraph=True))"),
     Clause("copy", copy_cases(False), check_copy, quick=200, thorough=1000, shards_quick=2,
            rule="source as above; at least two effective mutations, one of them an in-place "
-                "set_attr_*/remove_attr_* edit, applied to the copy and to the original"),
+                "set_attr_*/remove_attr_* edit or an in-place edit of a nested metadata value, "
+                "applied to the copy and to the original"),
     Clause("directed_copy", copy_cases(True), check_copy, quick=200, thorough=1000,
            shards_quick=2,
            rule="as C05.copy for DirectedHypergraph"),
